@@ -282,3 +282,51 @@ Example C08_mixed :
   has_stop mixed_v (reach mixed_v mixed) = true /\
   map (upd_at 1 (filter_inplace mixed_v)) mixed = [nd 1 [nd 2 [nd 3 []; nd 4 []]; nd 5 []]; nd 7 [nd 11 []]; nd 8 []; nd 9 []; nd 10 []].
 Proof. split; [apply nodupb_sound|]; vm_compute; repeat split; reflexivity. Qed.
+
+(* hypotheses of the clause theorems are satisfiable on [mixed]:
+   node 5 (visited, SkipBranch(and_self=False)) is kept and its child 6 is not; node 7 (skip) and node 9 (stop)
+   are reached and dropped, nothing below / after them is kept; node 2 (select) keeps its whole branch although
+   3 would answer stop *)
+Example C08_mixed_clauses :
+  (exists t5, find_node 5 mixed = Some t5 /\ In 6 (ids (rch t5))) /\
+  In 5 (visited mixed_v mixed) /\ accepts (mixed_v 5) = true /\ opens (mixed_v 5) = false /\ mixed_v 5 <> VSelect /\
+  In 5 (ids (F mixed_v mixed)) /\ ~ In 6 (ids (F mixed_v mixed)) /\
+  In 7 (reach mixed_v mixed) /\ mixed_v 7 = VSkip /\ ~ In 7 (ids (F mixed_v mixed)) /\ ~ In 11 (ids (F mixed_v mixed)) /\
+  In 9 (reach mixed_v mixed) /\ mixed_v 9 = VStop /\ ~ In 9 (ids (F mixed_v mixed)) /\ ~ In 10 (ids (F mixed_v mixed)) /\
+  mixed_v 2 = VSelect /\ In 2 (visited mixed_v mixed) /\ incl [2; 3; 4] (ids (F mixed_v mixed)) /\
+  reach mixed_v mixed = [1; 2; 5; 7; 8; 9; 10].
+Proof.
+  split; [eexists; split; [vm_compute; reflexivity|apply in_b; vm_compute; reflexivity]|].
+  split; [apply in_b; vm_compute; reflexivity|].
+  split; [reflexivity|]. split; [reflexivity|]. split; [discriminate|].
+  split; [apply in_b; vm_compute; reflexivity|]. split; [apply notin_b; vm_compute; reflexivity|].
+  split; [apply in_b; vm_compute; reflexivity|]. split; [reflexivity|].
+  split; [apply notin_b; vm_compute; reflexivity|]. split; [apply notin_b; vm_compute; reflexivity|].
+  split; [apply in_b; vm_compute; reflexivity|]. split; [reflexivity|].
+  split; [apply notin_b; vm_compute; reflexivity|]. split; [apply notin_b; vm_compute; reflexivity|].
+  split; [reflexivity|]. split; [apply in_b; vm_compute; reflexivity|].
+  split; [apply incl_b; vm_compute; reflexivity|]. vm_compute. reflexivity.
+Qed.
+
+(* the declarative description of the reached nodes is inhabited for 5 and empty for 6 *)
+Example C08_mixed_reached :
+  (exists t, In t (pre_f mixed) /\ rid t = 5 /\ all_open mixed_v mixed t) /\
+  ~ (exists t, In t (pre_f mixed) /\ rid t = 6 /\ all_open mixed_v mixed t).
+Proof.
+  assert (ND : NoDup (ids mixed)) by (apply nodupb_sound; vm_compute; reflexivity).
+  split.
+  - apply (reach_decl mixed_v mixed ND). apply in_b. vm_compute. reflexivity.
+  - intros H. apply (reach_decl mixed_v mixed ND) in H. revert H. apply notin_b. vm_compute. reflexivity.
+Qed.
+
+(* outside the D24 region (no True / SkipBranch(and_self=False) answers) the full statement holds non-trivially *)
+Definition select_a1 (n : nat) : verdict := if Nat.eqb n 2 then VSelect else VFalse.
+Example C08_outside_D24 :
+  (forall n, select_a1 n <> VTrue /\ select_a1 n <> VSkipKeepSelf) /\
+  F select_a1 fixture = [nd 1 [nd 2 [nd 3 []; nd 4 []]]] /\
+  map erase (filtered select_a1 fixture) = map erase (F select_a1 fixture) /\
+  has_stop select_a1 (reach select_a1 fixture) = false.
+Proof.
+  split; [|vm_compute; repeat split; reflexivity].
+  intros n. unfold select_a1. destruct (Nat.eqb n 2); split; discriminate.
+Qed.
